@@ -96,6 +96,17 @@ def explore(ctx):
             if not o.diverged:
                 oracle(ctx, sc, o, 'each')
                 each.append((driver.coq_scenario(sc, o.perm), o.out, sc))
+    # a test-case set that contains both F and F.orig (the name of F's backup): nothing may be written to a test case without a test
+    for nn in (1, 2):
+        for skip in (False, True):
+            sc = {'files': [('m.c', 'aab'), ('m.c.orig', 'keepme')], 'rules': [([('has', 1, 'keepme'), ('has', 0, 'b')], 0)],
+                  'group': {'first': [], 'main': [{'key': 1, 'ops': [('delch', 'a')], 'aos': 0, 'maxt': None, 'newfix': None}], 'last': []},
+                  'cfg': {'N': nn, 'no_cache': True}, 'sched': [1] * 20, 'skip_check': skip}
+            o = driver.run_scenario(sc, ctx.tmp, mode='reduce')
+            ctx.evaluations += 1
+            ctx.count('reduce:test-case-named-like-a-backup')
+            if not o.diverged:
+                oracle(ctx, sc, o, 'reduce')
     for it in range(n2):
         sc = scengen.gen_group(rnd, 'faults' if it % 3 else 'contract')
         o = driver.run_scenario(sc, ctx.tmp, mode='reduce')
@@ -139,7 +150,7 @@ def real_lines(ctx, rnd):
                     # not installed / not executable (127 / 126), or a crash of the test
                     fall = (1, 127, 126, -11, 2)[(len(text) + int(arg) + k + len(rules)) % 5]
                     rules_k = list(rules) + ([([], fall)] if fall != 1 else [])
-                    sc = {'files': files, 'rules': rules_k, 'passes': [], 'cfg': {'N': rnd.choice([1, 2, 3]), 'no_cache': True},
+                    sc = {'files': files, 'rules': rules_k, 'passes': [], 'cfg': {'N': rnd.choice([1, 2, 3]), 'no_cache': True, 'save_temps': (len(text) + int(arg) + k) % 3 == 0},
                           'sched': [rnd.randint(0, 7) for _ in range(20)], 'real_pass': f'lines::{arg}',
                           'skip_check': rnd.random() < 0.4}      # --skip-interestingness-test-check only skips the START-UP check
                     p = LinesPass(arg, {'topformflat': standin})
